@@ -183,6 +183,9 @@ func (fs *FS) Rename(oldname, newname string) error {
 		}
 		return &hackpadfs.LinkError{Op: "rename", Old: oldname, New: newname, Err: err}
 	}
+	if newInfo, err := hackpadfs.Stat(newMount, newSubPath); err == nil && newInfo.IsDir() {
+		return linkErr(hackpadfs.ErrExist) // like os.Rename: an existing directory is never replaced
+	}
 	oldFile, err := oldMount.Open(oldSubPath)
 	if err != nil {
 		return linkErr(err)
